@@ -46,4 +46,36 @@ new = """		// [verif] deterministic preference: queued requests first (see /veri
 if s.count(old) != 1:
     sys.stderr.write("patch_smux: shaperLoop does not look as expected\n")
     sys.exit(2)
-open(p, "w").write(s.replace(old, new))
+s = s.replace(old, new)
+
+# A registry of sessions, so that the resource ledger (C14) can count multiplexer streams that were
+# never closed locally: they hold no goroutine or socket, only an entry in the session's stream table
+# and its buffers - a leak per logical connection all the same.
+hook = "\tgo s.keepalive()\n\treturn s\n}"
+if s.count(hook) != 1:
+    sys.stderr.write("patch_smux: newSession does not look as expected\n")
+    sys.exit(2)
+s = s.replace(hook, "\tgo s.keepalive()\n\tsimSessions = append(simSessions, s) // [verif]\n\treturn s\n}")
+s += """
+// [verif] see /verif/patch_smux.py
+var simSessions []*Session
+
+// SimResetSessions forgets the sessions of earlier runs.
+func SimResetSessions() { simSessions = nil }
+
+// SimOpenStreams returns the number of streams in the stream tables of the sessions that are not closed.
+// Called at quiescent points only.
+func SimOpenStreams() int {
+	n := 0
+	for _, s := range simSessions {
+		if s.IsClosed() {
+			continue
+		}
+		s.streamLock.Lock()
+		n += len(s.streams)
+		s.streamLock.Unlock()
+	}
+	return n
+}
+"""
+open(p, "w").write(s)
